@@ -1,7 +1,7 @@
 (** * Layer H — SegmentedCache (src/lru/segmented.rs) on the heap, definitions: two RawLRU lists in one
     heap, nodes promoted and demoted between them without being freed.  Written over the heap-level
     primitives exactly as the Rust code is written over RawLRU. *)
-From VF Require Import Base Heap.
+From VF Require Import Base Heap HeapIterDef.
 From Coq Require Import List Arith.
 Import ListNotations.
 Local Open Scope nat_scope.
@@ -94,10 +94,45 @@ Definition hs_drop (h : heap) (s : hslru) : hres heap :=
   hdo h1 <- h_drop h (hprob s); h_drop h1 (hprot s).
 
 
+(** [SegmentedCache::put_protected] *)
+Definition hs_put_protected (h : heap) (s : hslru) (k : key) (v : val) : hres (heap * hslru * put_result) :=
+  hdo (h1, qa, r) <- h_remove h (hprob s) k;
+  hdo (h2, qb, pr) <- h_put h1 (hprot s) k v;
+  HOk (h2, mkHslru qa qb,
+       match r with
+       | Some old => match pr with
+                     | PPut => PUpdate old
+                     | PEvicted ek ev => PEvictedAndUpdate ek ev old
+                     | other => other
+                     end
+       | None => pr
+       end).
+
+
+(** the per-segment accessors ([peek_lru_from_probationary], [remove_lru_from_protected], ...): a RawLRU
+    operation applied to one of the two lists *)
+Definition hs_seg (h : heap) (s : hslru) (protected : bool) (o : hop) : hres (heap * hslru * hout) :=
+  if protected then hdo (h1, q1, r) <- hstep h (hprot s) o; HOk (h1, mkHslru (hprob s) q1, r)
+  else hdo (h1, q1, r) <- hstep h (hprob s) o; HOk (h1, mkHslru q1 (hprot s), r).
+
 (** ** one step; histories *)
+(** [Clone for SegmentedCache]: the probationary list, then the protected one; [x = x.clone()] then drops the
+    original *)
+Definition hs_clone (h : heap) (s : hslru) : hres (heap * hslru) :=
+  hdo (h1, qa) <- h_clone h (hprob s);
+  hdo (h2, qb) <- h_clone h1 (hprot s);
+  HOk (h2, mkHslru qa qb).
+
+Definition hs_clone_replace (h : heap) (s : hslru) : hres (heap * hslru) :=
+  hdo (h1, s') <- hs_clone h s;
+  hdo h2 <- hs_drop h1 s;
+  HOk (h2, s').
+
 Inductive sop :=
 | SPut (k : key) (v : val) | SGetMut (k : key) (w : option val) | SPeek (k : key)
-| SPeekMut (k : key) (w : option val) | SContains (k : key) | SRemove (k : key) | SPurge.
+| SPeekMut (k : key) (w : option val) | SContains (k : key) | SRemove (k : key) | SPurge
+| SPutProtected (k : key) (v : val)
+| SClone.
 
 Definition hs_step (h : heap) (s : hslru) (o : sop) : hres (heap * hslru * hout) :=
   match o with
@@ -108,6 +143,8 @@ Definition hs_step (h : heap) (s : hslru) (o : sop) : hres (heap * hslru * hout)
   | SContains k => hdo b <- hs_contains h s k; HOk (h, s, OBool b)
   | SRemove k => hdo (h1, s1, r) <- hs_remove h s k; HOk (h1, s1, OVal r)
   | SPurge => hdo (h1, s1) <- hs_purge h s; HOk (h1, s1, OUnit)
+  | SPutProtected k v => hdo (h1, s1, r) <- hs_put_protected h s k v; HOk (h1, s1, OPut r)
+  | SClone => hdo (h1, s1) <- hs_clone_replace h s; HOk (h1, s1, OUnit)
   end.
 
 
